@@ -174,6 +174,31 @@ def flexvec(t, l):
 
 
 # --------------------------------------------------------------------------------------
+# macro hygiene: inherent items with the name (and signature) of every item of the flatty traits. Generated code that names a trait
+# item through `Self::X`, `<Ty>::X` or method syntax silently resolves to these (rule H1.no-hijack looks for them in generated bodies).
+
+def hij_all(name):
+    return ("impl %s {\n"
+            "    pub const ALIGN: usize = 64;\n    pub const MIN_SIZE: usize = 4096;\n    pub const SIZE: usize = 4096;\n"
+            "    pub fn size(&self) -> usize { 0 }\n"
+            "    pub unsafe fn ptr_from_bytes(_: *mut [u8]) -> *mut Self { loop {} }\n"
+            "    pub unsafe fn ptr_to_bytes(_: *mut Self) -> *mut [u8] { loop {} }\n"
+            "    pub unsafe fn from_bytes_unchecked(_: &[u8]) -> &Self { loop {} }\n"
+            "    pub unsafe fn from_mut_bytes_unchecked(_: &mut [u8]) -> &mut Self { loop {} }\n"
+            "    pub fn as_bytes(&self) -> &[u8] { &[] }\n"
+            "    pub unsafe fn as_mut_bytes(&mut self) -> &mut [u8] { &mut [] }\n"
+            "    pub fn new_in_place<I>(_: &mut [u8], _: I) -> Result<&mut Self, flatty::Error> { loop {} }\n"
+            "    pub fn assign_in_place<I>(&mut self, _: I) -> Result<&mut Self, flatty::Error> { loop {} }\n"
+            "    pub unsafe fn validate_unchecked(_: &[u8]) -> Result<(), flatty::Error> { Ok(()) }\n"
+            "    pub unsafe fn validate_ptr(_: *const Self) -> Result<(), flatty::Error> { Ok(()) }\n"
+            "    pub fn validate(_: &[u8]) -> Result<(), flatty::Error> { Ok(()) }\n"
+            "    pub fn from_bytes(_: &[u8]) -> Result<&Self, flatty::Error> { loop {} }\n"
+            "    pub fn from_mut_bytes(_: &mut [u8]) -> Result<&mut Self, flatty::Error> { loop {} }\n"
+            "    pub fn default_in_place(_: &mut [u8]) -> Result<&mut Self, flatty::Error> { loop {} }\n"
+            "}\n") % name
+
+
+# --------------------------------------------------------------------------------------
 # #[flat] definitions
 
 class Def:
@@ -479,6 +504,15 @@ def build(tier):
     s_dhij = D("SDefHij", "struct", True, fields=[("major", U8), ("minor", U8)], default=True,
                extra="impl SDefHij {\n    /// ordinary user API with the name of FlatDefault::default_emplacer\n    pub fn default_emplacer() -> Self { SDefHij { major: 3, minor: 7 } }\n}\n")
     us_dhij = D("USDefHij", "struct", False, fields=[("version", s_dhij.t), ("items", vec_u8_u8)], default=True)
+    # every trait item name as an inherent item, on each kind of definition and on the types used inside them
+    h_s = D("HSz", "struct", True, fields=[("a", U8), ("b", U16)], default=True, extra=hij_all("HSz"))
+    h_ec = D("HECl", "enum", True, variants=[("A", "unit", [], True), ("B", "unit", [], False)], default=True, extra=hij_all("HECl"))
+    h_es = D("HESz", "enum", True, variants=[("A", "unit", [], True), ("B", "tuple", [(None, h_s.t), (None, U8)], False)],
+             default=True, extra=hij_all("HESz"))
+    h_us = D("HUS", "struct", False, fields=[("a", h_s.t), ("e", h_es.t), ("items", vec_u8_u8)], default=True, extra=hij_all("HUS"))
+    h_ue = D("HUE", "enum", False, variants=[("A", "unit", [], True), ("B", "tuple", [(None, h_ec.t), (None, h_us.t)], False),
+                                              ("C", "named", [("x", h_s.t)], False)], default=True, extra=hij_all("HUE"))
+    h_outer = D("HOuter", "struct", False, fields=[("id", U32), ("inner", h_ue.t)], default=True, extra=hij_all("HOuter"))
     us_pad2 = D("USPad2", "struct", False, fields=[("a", U8), ("b", U64), ("c", U16), ("s", str_u8)], default=True)
 
     # ---- unsized enums
